@@ -11,6 +11,7 @@ effects*(op)   = own effects, plus (recursive ops) effects* of every op in every
 precise liveness (what a complete DCE leaves): least S with
     op in S  <=  block of op reachable in its region, parent in S (or top level),
                  and (not candidate(op)  or  some result of op is an operand of an op in S)
+    where, for recursive ops, effects* only counts ops in *reachable* blocks (unreachable blocks are erased)
 one-round model (`precise=False`, the behaviour of a single region_dce round): liveness is propagated through ops
     nested in ops that are themselves going to be removed; survivors = live ops whose ancestors are live.
 trivial fixpoint (what iterated "erase if trivially dead" can remove at most): least R with
@@ -213,43 +214,46 @@ def canon(s: Snap):
 
 
 # ------------------------------------------------------------------ reference analyses on a snapshot
-def effects_star(n: Node, dev=(), memo=None):
+def effects_star(n: Node, dev=(), memo=None, allblocks=True):
+    """allblocks=True: every block of every region counts (MLIR's wouldOpBeTriviallyDead on the IR as it is);
+    allblocks=False: only blocks reachable in their region (what is left once unreachable blocks are erased)."""
     if memo is not None and n.id in memo:
         return memo[n.id]
     _t, _s, eff, rec = entry(n.name, dev)
     if rec:
         acc = set(eff)
         for reg in n.regions:
-            for b in reg:             # ALL blocks, as MLIR's wouldOpBeTriviallyDead
-                for c in b.ops:
-                    acc |= effects_star(c, dev, memo)
+            for b in reg:
+                if allblocks or b.reach:
+                    for c in b.ops:
+                        acc |= effects_star(c, dev, memo, allblocks)
         eff = frozenset(acc)
     if memo is not None:
         memo[n.id] = eff
     return eff
 
 
-def candidate(n: Node, dev=(), memo=None) -> bool:
+def candidate(n: Node, dev=(), memo=None, allblocks=True) -> bool:
     t, sy, _e, _r = entry(n.name, dev)
     if t or sy:
         return False
-    return effects_star(n, dev, memo) <= HARMLESS
+    return effects_star(n, dev, memo, allblocks) <= HARMLESS
 
 
-def why_not(n: Node, dev=()):
+def why_not(n: Node, dev=(), allblocks=True):
     t, sy, _e, _r = entry(n.name, dev)
     if t:
         return "terminator"
     if sy:
         return "symbol"
-    bad = sorted(effects_star(n, dev) - HARMLESS)
+    bad = sorted(effects_star(n, dev, None, allblocks) - HARMLESS)
     return "+".join(bad) if bad else None
 
 
 def survivors(s: Snap, precise=True, dev=()):
     """ids a complete DCE leaves (precise) / a single region_dce round leaves (precise=False)."""
     memo = {}
-    cand = {n.id: candidate(n, dev, memo) for n in s.nodes}
+    cand = {n.id: candidate(n, dev, memo, allblocks=not precise) for n in s.nodes}
     if precise:
         live = set()
         changed = True
